@@ -251,6 +251,12 @@ def _corrupt(v, rng: random.Random):
 PASSIVE_PROPS = {"C03", "C04", "C05", "C06", "C07"}
 
 
+# properties whose checks also replay the behaviours of the composite specification spec/FsSystem.tla (two sessions in which
+# context, DML, failures, transactions, variables, scripts and no-op'd statements meet) and report the rejections that
+# belong to them (props/sysmodel.py: attribute)
+SYSTEM_PROPS = {"C03", "C04", "C06", "C07", "C13", "C15", "C16"}
+
+
 class Prop:
     id = "C00"
     judge_module = ""
@@ -382,23 +388,8 @@ class Run:
                 sim = f"num={g['num']}"
             nxt = g.get("next", "NextWalk" if mode == "walks" else "Next")
             cfg = write_cfg(f"{self.prop.id}_{g['name']}", consts, init=g.get("init", "Init"), next=nxt, **kw)
-            r = tlc.run(
-                g.get("module", self.prop.gen_module),
-                cfg,
-                workers=1,
-                simulate=sim,
-                depth=(g.get("depth") + 3) if sim else None,
-                seed=(self.seed + g.get("seed_offset", 0)) if (sim or g.get("emit") == "EmitSample") else None,
-                timeout=g.get("timeout", 900),
-                env=g.get("env"),
-            )
-            seen = {}
-            for item in r.prints.get("B", []):
-                ops = item[0]
-                key = json.dumps(ops, sort_keys=True)
-                if key not in seen and ops:
-                    seen[key] = ops
-            allb = list(seen.values())
+            tseed = (self.seed + g.get("seed_offset", 0)) if (sim or g.get("emit") == "EmitSample") else None
+            allb, wall = self._generate_cached(g, cfg, sim, tseed)
             total = len(allb)
             if g.get("sample") and total > g["sample"]:
                 # seeded subset of the enumerated behaviours (quick tier); thorough replays all of them
@@ -408,9 +399,54 @@ class Run:
                 self.behaviours[f"{g['name']}-{k}"] = ops
             self.family_total[g["name"]] = total
             self.families[g["name"]] = got
-            log(f"generated {g['name']}: {got} behaviours in {r.wall_s:.1f}s")
+            log(f"generated {g['name']}: {got} behaviours in {wall}")
             if got == 0:
-                raise tlc.MachineryError(f"generation {g['name']} produced no behaviour:\n" + r.out[-2000:])
+                raise tlc.MachineryError(f"generation {g['name']} produced no behaviour")
+
+    def _generate_cached(self, g, cfg, sim, tseed):
+        """behaviours of one generation family.  They are a function of the specification (all of spec/*.tla), the cfg and
+        TLC's seed - not of the code under test - so they are kept under .work/gencache and reused while none of those
+        changes (the composite specification's walks are shared by several properties' checks)."""
+        h = hashlib.sha1()
+        for f in sorted(os.listdir(tlc.SPEC)):
+            if f.endswith(".tla"):
+                with open(os.path.join(tlc.SPEC, f), "rb") as fh:
+                    h.update(f.encode() + b"\0" + fh.read())
+        with open(cfg, "rb") as fh:
+            h.update(fh.read())
+        h.update(json.dumps([g.get("module", self.prop.gen_module), sim, g.get("depth"), tseed, g.get("env")], sort_keys=True).encode())
+        cdir = os.path.join(tlc.WORK, "gencache")
+        os.makedirs(cdir, exist_ok=True)
+        cpath = os.path.join(cdir, h.hexdigest() + ".json")
+        if os.environ.get("VERIF_NO_GENCACHE") != "1" and os.path.exists(cpath):
+            try:
+                with open(cpath) as fh:
+                    return json.load(fh), "0s (reused: same specification, cfg and seed)"
+            except Exception:
+                pass
+        r = tlc.run(
+            g.get("module", self.prop.gen_module),
+            cfg,
+            workers=1,
+            simulate=sim,
+            depth=(g.get("depth") + 3) if sim else None,
+            seed=tseed,
+            timeout=g.get("timeout", 900),
+            env=g.get("env"),
+        )
+        seen = {}
+        for item in r.prints.get("B", []):
+            ops = item[0]
+            key = json.dumps(ops, sort_keys=True)
+            if key not in seen and ops:
+                seen[key] = ops
+        allb = list(seen.values())
+        if allb:
+            tmp = cpath + f".{os.getpid()}.tmp"
+            with open(tmp, "w") as fh:
+                json.dump(allb, fh)
+            os.replace(tmp, cpath)
+        return allb, f"{r.wall_s:.1f}s"
 
     def add_pinned(self):
         for f in self.findings:
@@ -503,8 +539,8 @@ class Run:
                     "tier": self.tier,
                     "seed": self.seed,
                     "judge": self.prop.judge_module,
-                    "mode": "passive" if viol["tid"].startswith("passive:") else "noise" if viol["tid"].startswith("noise-") else "plain",
-                    "tid": viol["tid"][6:] if viol["tid"].startswith("noise-") else viol["tid"],
+                    "mode": "passive" if viol["tid"].startswith("passive:") else "system" if viol["tid"].startswith("system:") else "noise" if viol["tid"].startswith("noise-") else "plain",
+                    "tid": viol["tid"][6:] if viol["tid"].startswith("noise-") else viol["tid"][7:] if viol["tid"].startswith("system:") else viol["tid"],
                     "ops": [e["op"] for e in t["ev"]],
                     "trace": t["ev"],
                     "failed_at": viol["verdict"]["at"],
@@ -557,7 +593,7 @@ class Run:
             "notes": self.notes,
         }
         # runs against a scratch worktree (seeded changes) must not overwrite the evidence of /repo itself
-        evdir = os.path.join(VERIF, "evidence") if os.path.realpath(REPO) == "/repo" else os.path.join(tlc.WORK, "evidence_alt")
+        evdir = os.path.join(VERIF, "evidence") if os.path.realpath(REPO) == "/repo" and self.prop.id != "SYS" else os.path.join(tlc.WORK, "evidence_alt")
         os.makedirs(evdir, exist_ok=True)
         with open(os.path.join(evdir, f"{self.prop.id}.json"), "w") as f:
             json.dump(ev, f, indent=1, default=str)
@@ -695,6 +731,42 @@ class Run:
         log(f"repository suite: {len(traces)} traces / {info['events']} events judged against FakeSnow.tla, "
             f"{nviol} violate a {mine}* clause ({time.time()-t0:.1f}s after the suite's {info['wall_s']}s)")
 
+    # ---- 9. behaviours of the composite specification (spec/FsSystem.tla)
+    def system_run(self):
+        if self.prop.id not in SYSTEM_PROPS or os.environ.get("VERIF_NO_SYSTEM") == "1":
+            return
+        from props import sysmodel
+
+        t0 = time.time()
+        sub = Run(sysmodel.SYS(), self.tier, self.seed)
+        sub.model_check()
+        sub.generate()
+        traces = sub.drive_all()
+        sub.settle(traces, sub.judge(traces))
+        mine, others = 0, {}
+        for v in sub.violations:
+            ops = [e["op"] for e in v["trace"]["ev"]]
+            who = sysmodel.attribute(ops, v["verdict"])
+            if who == self.prop.id:
+                mine += 1
+                v = dict(v, tid="system:" + v["tid"])
+                self.violations.append(v)
+            else:
+                others[who] = others.get(who, 0) + 1
+        self.states += sub.states
+        self.transitions += sub.transitions
+        self.families.update({k: n for k, n in sub.families.items()})
+        self.extra_cov["system_behaviours"] = {
+            "what": "behaviours of the composite specification spec/FsSystem.tla (two sessions; USE SCHEMA, DML with literals / "
+                    "variables / bound values at three qualification levels, failing statements, BEGIN / COMMIT / ROLLBACK, SET / UNSET, "
+                    "execute_string scripts, no-op'd statements, description reads) replayed on the code; after every operation the "
+                    "whole projected state is observed through both connections and judged by TLC",
+            "model_checks": sub.mc_log, "families": sub.families, "traces_judged": len(sub.verdicts),
+            "rejected_steps_attributed_to_this_property": mine, "rejected_steps_attributed_to_other_properties": others,
+            "sample": traces[0]["ev"][:4] if traces else [],
+        }
+        log(f"system behaviours: {len(traces)} traces, {mine} rejections belong to {self.prop.id}, others: {others} ({time.time()-t0:.1f}s)")
+
     # ---- whole pipeline
     def execute(self) -> int:
         pfut = self.passive_start()
@@ -707,6 +779,7 @@ class Run:
             self.binding_selftest(traces)
         self.interference_run()
         self.prop.extra_checks(self.tier, self.seed, self)
+        self.system_run()
         self.passive_finish(pfut)
         self.evidence(traces)
         return self.report()
@@ -744,6 +817,19 @@ class Run:
         # same identity and seed as the recorded run: the driver's and the interference run's random choices are
         # functions of (seed, tid)
         self.seed = rp.get("seed", self.seed)
+        if rp.get("mode") == "system":
+            from props import sysmodel
+
+            sub = Run(sysmodel.SYS(), self.tier, self.seed)
+            sub.behaviours = {rp.get("tid", "replay"): rp["ops"]}
+            traces = sub.drive_all()
+            sub.settle(traces, sub.judge(traces))
+            for t in traces:
+                for k, e in enumerate(t["ev"], 1):
+                    print(k, json.dumps(e["op"]), "->", json.dumps(e["obs"]))
+            self.violations = [v for v in sub.violations
+                               if sysmodel.attribute([e["op"] for e in v["trace"]["ev"]], v["verdict"]) == self.prop.id]
+            return self.report()
         if rp.get("mode") == "passive":
             # re-record the one test of the repository's suite and judge it again
             traces, info = passive.record_suite(REPO, 1, tests=[rp["tid"][len("passive:"):] if rp["tid"].startswith("passive:") else rp["tid"]])
